@@ -3,6 +3,7 @@ package wb
 import (
 	"bytes"
 	"encoding/hex"
+	"math/big"
 	"testing"
 
 	"github.com/bytemare/secp256k1"
@@ -17,6 +18,9 @@ import (
 type caseC04 struct {
 	P      pt.Spec   `json:"p"`
 	Steps2 []pt.Step `json:"steps2,omitempty"` // a second recipe for the same base
+	// PrevX: right before the round trips, the compressed encodings 02||PrevX and 03||PrevX of a LOOK-ALIKE abscissa (one 64-bit
+	// word of x replaced, the rest identical) are decoded into other objects: decoding calls are independent.
+	PrevX string `json:"prev_x,omitempty"`
 }
 
 func idSpec(steps ...pt.Step) pt.Spec { return pt.Spec{Base: pt.Base{Kind: "id"}, Steps: steps} }
@@ -27,6 +31,19 @@ var c04 = gen.Register(&gen.Check[caseC04]{
 		p := pt.SpecGen(3, true).Draw(t, "p")
 		c := caseC04{P: p}
 		c.Steps2 = pt.WithSteps(t, p.Base, 2, false).Steps
+		if m := p.Base.Point(); !m.Inf && gen.Chance(t, "prev", 1, 4) {
+			l := gen.ToLimbs(m.X)
+			l[gen.Pick(t, "word", 4)] = gen.U64(t, "w")
+			x := gen.FromLimbs(l)
+			x.Mod(x, ref.P)
+			for i := 0; i < 64; i++ {
+				if _, _, ok := ref.LiftX(x); ok && x.Cmp(m.X) != 0 {
+					c.PrevX = hex.EncodeToString(ref.Bytes32(x))
+					break
+				}
+				x.Add(x, big.NewInt(1)).Mod(x, ref.P)
+			}
+		}
 		return c
 	},
 	Fixed: func() []caseC04 {
@@ -42,7 +59,7 @@ var c04 = gen.Register(&gen.Check[caseC04]{
 		}
 		return out
 	},
-	Required: []string{"p:identity", "odd-y", "even-y"},
+	Required: []string{"p:identity", "odd-y", "even-y", "after-look-alike"},
 	Run: func(c caseC04, o *gen.Obs) error {
 		hostileCaller()
 		b, err := pt.Build(c.P)
@@ -84,6 +101,12 @@ var c04 = gen.Register(&gen.Check[caseC04]{
 		// encoders are read-only
 		if after := pt.Inspect(e, m); after.RawKnown && (after.X.Cmp(b.X) != 0 || after.Y.Cmp(b.Y) != 0 || after.Z.Cmp(b.Z) != 0) {
 			return gen.Fail("Encode/mutates", "encoding changed the raw coordinates")
+		}
+		if c.PrevX != "" {
+			o.Class("after-look-alike")
+			px := gen.HexBytes(c.PrevX)
+			_ = secp256k1.NewElement().Decode(append([]byte{2}, px...))
+			_ = secp256k1.NewElement().Decode(append([]byte{3}, px...))
 		}
 		// round trips, onto a receiver holding something else
 		for _, rt := range []struct {
